@@ -13,9 +13,46 @@ import (
 	"golang.org/x/tools/go/ssa"
 )
 
+// call translates a call and then applies the "at call ... assume" clauses of
+// the enclosing contract (trusted facts about the post-call state; each one
+// used is listed among the assumptions).
 func (fr *Frame) call(in ssa.Instruction, c *ssa.CallCommon, st *State, pc Term) []Term {
+	pre := st.clone()
+	res := fr.callInner(in, c, st, pc)
+	if !fr.top || fr.contract == nil || fr.lastCallee == "" {
+		return res
+	}
+	for _, cs := range fr.contract.CallSites {
+		if cs.Clause.Kind != "callassume" {
+			continue
+		}
+		if calleeMatches(cs.Callee, fr.lastCallee) && (cs.Ordinal == 0 || cs.Ordinal == fr.lastOrd) {
+			env := fr.specEnv(st, pc)
+			env.old = pre
+			vars := map[string]TV{}
+			sig := c.Signature()
+			for i, r := range res {
+				vars[fmt.Sprintf("result%d", i)] = TV{r, sig.Results().At(i).Type()}
+			}
+			if len(res) == 1 {
+				vars["result"] = TV{res[0], sig.Results().At(0).Type()}
+			}
+			g, err := env.with(vars).evalBool(cs.Clause.E)
+			if err != nil {
+				fr.vc.specError(cs.Clause, err)
+				continue
+			}
+			fr.vc.assume(pc, g)
+			fr.vc.assumes["assumed after call "+cs.Callee+" in "+fr.vc.fname+": "+cs.Clause.Src] = true
+		}
+	}
+	return res
+}
+
+func (fr *Frame) callInner(in ssa.Instruction, c *ssa.CallCommon, st *State, pc Term) []Term {
 	vc := fr.vc
 	sig := c.Signature()
+	fr.lastCallee = ""
 	if b, ok := c.Value.(*ssa.Builtin); ok {
 		return fr.builtin(in, b, c, st, pc)
 	}
@@ -50,10 +87,14 @@ func (fr *Frame) call(in ssa.Instruction, c *ssa.CallCommon, st *State, pc Term)
 	fr.callOrd[calleeName]++
 	ord := fr.callOrd[calleeName]
 	site := fmt.Sprintf("%s#%d", shortCallee(calleeName), ord)
+	fr.lastCallee, fr.lastOrd = calleeName, ord
 	// call-site assertions of the enclosing contract
 	if fr.top && fr.contract != nil {
 		for _, cs := range fr.contract.CallSites {
-			if (cs.Callee == calleeName || cs.Callee == shortCallee(calleeName)) && (cs.Ordinal == 0 || cs.Ordinal == ord) {
+			if cs.Clause.Kind != "callsite" {
+				continue
+			}
+			if calleeMatches(cs.Callee, calleeName) && (cs.Ordinal == 0 || cs.Ordinal == ord) {
 				env := fr.specEnv(st, pc)
 				vars := map[string]TV{}
 				for i, a := range args {
@@ -86,7 +127,7 @@ func (fr *Frame) call(in ssa.Instruction, c *ssa.CallCommon, st *State, pc Term)
 	eff := vc.effectsOfCall(fr, c, callee)
 	if eff.top {
 		vc.havocAllHeaps(st)
-		vc.noteOpaque(calleeName, c, "all heaps havoced")
+		vc.noteOpaque(calleeName, c, "all heaps havoced ("+eff.why+")")
 	} else {
 		for _, h := range eff.sorted() {
 			vc.havocHeap(st, h)
@@ -106,6 +147,12 @@ func (fr *Frame) call(in ssa.Instruction, c *ssa.CallCommon, st *State, pc Term)
 		res = append(res, fr.freshTyped("res:"+shortCallee(calleeName), sig.Results().At(i).Type(), st, pc))
 	}
 	return res
+}
+
+// calleeMatches reports whether a call-site clause written for pattern names
+// the callee: full name, name without the directory, or without the package.
+func calleeMatches(pattern, callee string) bool {
+	return pattern == callee || pattern == shortCallee(callee) || strings.HasSuffix(callee, "."+pattern)
 }
 
 func labelOr(l, d string) string {
@@ -136,12 +183,33 @@ func (fr *Frame) mayRunLocalClosure(c *ssa.CallCommon) bool {
 	return false
 }
 
-// fieldFuncName names a function value loaded from a struct field.
+// fieldFuncName names a dynamically called function value for contract
+// lookup: "pkg.Type.field" for a value loaded from a struct field, or
+// "pkg.FuncType" for a value of a named function type.
 func fieldFuncName(v ssa.Value) string {
 	u, ok := v.(*ssa.UnOp)
 	if !ok {
-		return ""
+		return namedFuncTypeName(v.Type())
 	}
+	if n := fieldFuncName0(u); n != "" {
+		return n
+	}
+	return namedFuncTypeName(v.Type())
+}
+
+func namedFuncTypeName(t types.Type) string {
+	if n, ok := t.(*types.Named); ok && n.Obj().Pkg() != nil {
+		if _, isSig := n.Underlying().(*types.Signature); isSig {
+			return shortPkg(n.Obj().Pkg().Path()) + "." + n.Obj().Name()
+		}
+	}
+	return ""
+}
+
+func fieldFuncName0(u *ssa.UnOp) string {
+	var v ssa.Value = u
+	_ = v
+	var ok bool
 	fa, ok := u.X.(*ssa.FieldAddr)
 	if !ok {
 		return ""
@@ -331,6 +399,12 @@ func (fr *Frame) modularCall(fc *FuncContract, callee *ssa.Function, c *ssa.Call
 	} else if fr.fn.Pkg != nil {
 		env.pkg = fr.fn.Pkg.Pkg
 	}
+	isClosure := c != nil && fr.closures[c.Value] != nil
+	if isClosure {
+		// clauses of a closure contract may name captured variables: they are
+		// the caller's own locals
+		env.fr = fr
+	}
 	// parameter names
 	names := calleeParamNames(fc, callee, c, sig)
 	for i, n := range names {
@@ -378,6 +452,9 @@ func (fr *Frame) modularCall(fc *FuncContract, callee *ssa.Function, c *ssa.Call
 	nres := sig.Results().Len()
 	res := make([]Term, nres)
 	post := &Env{vc: vc, vars: map[string]TV{}, st: st, old: pre, pkg: env.pkg, pkgKey: fc.Pkg}
+	if isClosure {
+		post.fr = fr
+	}
 	for k, v := range env.vars {
 		post.vars[k] = v
 	}
@@ -433,6 +510,17 @@ func calleeParamNames(fc *FuncContract, callee *ssa.Function, c *ssa.CallCommon,
 
 func (vc *VC) specError(cl *Clause, err error) {
 	msg := fmt.Sprintf("contract error in %q: %v", cl.Src, err)
+	if strings.Contains(err.Error(), "unknown identifier") {
+		// The clause names a variable that no longer exists in the function:
+		// the proof no longer covers the code. Reported as a failed binding
+		// obligation (a violation without a failing input), not as an
+		// infrastructure error; the clause itself is dropped.
+		if !vc.declared["binding:"+msg] {
+			vc.declared["binding:"+msg] = true
+			vc.oblige("binding", "binding", "clause", tTrue, tFalse, msg)
+		}
+		return
+	}
 	for _, e := range vc.errs {
 		if e == msg {
 			return
